@@ -39,6 +39,7 @@ type opCase struct {
 	Target *hx.Step
 	Rest   []*hx.Step
 	Kind   string
+	Xs     []ilX // interleavings: the second callers to use (nil = chosen from the history and the pool)
 }
 
 // casePool indexes, by kind, the eligible steps of a few hundred seeded histories (generated
@@ -132,6 +133,25 @@ func changesDatabase(c opCase) bool {
 	runStepRaw(x, c.Target)
 	d1, _ := x.DumpRaw()
 	return d0 != d1
+}
+
+// fullEffect runs the case's prefix and target on a scratch database and returns the logical
+// content afterwards (no times in it): what the target leaves behind when nothing disturbs it.
+func fullEffect(c opCase) (string, bool) {
+	x, err := hx.OpenMemDriver(fmt.Sprintf("full_%d", time.Now().UnixNano()), hx.FaultDriverName)
+	if err != nil {
+		return "", false
+	}
+	defer x.Close()
+	for _, st := range c.Prefix {
+		runStepRaw(x, st)
+	}
+	runStepRaw(x, c.Target)
+	ct, err := hx.ContentOfDB(x.DB)
+	if err != nil {
+		return "", false
+	}
+	return ct.Text, true
 }
 
 // opCasesWhere is opCases with a preference: of each kind, occurrences satisfying pred come first.
